@@ -36,13 +36,15 @@ type Conn struct {
 	Send   chan mocrelay.ServerMsg
 	stop   chan struct{}
 
-	Sent      []*Sent
-	Got       []*Got
-	ServeErr  error
-	ServeDone bool
-	DoneAt    int64
-	Session   *vsched.Task
-	ReaderOff bool
+	Sent       []*Sent
+	Got        []*Got
+	ServeErr   error
+	ServeDone  bool
+	DoneAt     int64
+	Session    *vsched.Task
+	ReaderOff  bool
+	CancelAt   int64         // logical time at which the environment ended the session (0 = never)
+	WriterDone chan struct{} // optional: closed by the writer when its script is out
 }
 
 func NewConn(h *vsched.H, name string, parent context.Context, handler mocrelay.Handler) *Conn {
